@@ -1,5 +1,5 @@
 (* C08 correspondence cases: what the implementation answered, to be compared with the model *)
-From FB Require Export C08.Model Base.Run.
+From FB Require Export C08.Model C08.ModelOk Base.Run.
 
 Inductive case :=
 | CReorder (M : mappings) (names : list str) (r : res mappings)
@@ -7,8 +7,12 @@ Inductive case :=
 | CPerms (M : mappings) (rs : list (res mappings))
     (* Mappings::reorder for every permutation of the namespace names of M, enumerated by the
        model itself ([perms (ms_ns M)]); rs are the implementation's answers in that order *)
-| CMapDesc (M : mappings) (from to : N) (d : str) (r : res str).
+| CMapDesc (M : mappings) (from to : N) (d : str) (r : res str)
     (* M.remapper_a(from, to).map_field_desc(d) *)
+| CHyp (M : mappings) (t0 : N) (wfb nocoll clean noname coll : bool).
+    (* the harness' own evaluation of the theorems' decidable hypotheses / failure causes on an input it
+       judged with them: wf M, no_collision M t0, class_names_clean M, entry_without_name M t0,
+       key_collision M t0 (t0 = old index of the new first namespace) *)
 
 Definition check (c : case) : bool :=
   match c with
@@ -16,4 +20,8 @@ Definition check (c : case) : bool :=
   | CPerms M rs => list_eqb (res_eqb mappings_eqb) (map (reorder_by_names M) (perms (ms_ns M))) rs
   | CMapDesc M from to d r =>
       res_eqb str_eqb (map_desc (map_class (remapper_a M (N.to_nat from) (N.to_nat to))) d) r
+  | CHyp M t0 wfb nocoll clean noname coll =>
+      let i := N.to_nat t0 in
+      Bool.eqb (wf M) wfb && Bool.eqb (no_collision M i) nocoll && Bool.eqb (class_names_clean M) clean
+      && Bool.eqb (entry_without_name M i) noname && Bool.eqb (key_collision M i) coll
   end.
